@@ -245,7 +245,11 @@ func (m *Manager[T]) scan(id string) error {
 		cs, err := newClientState(m.nc, m.construct, n)
 
 		if err != nil {
+			// the node cannot be read or decoded (for instance a point with a
+			// value its field cannot hold): leave it without a client, it is
+			// tried again on the next scan
 			log.Printf("Error starting client %v: %v", n, err)
+			continue
 		}
 
 		go func() {
